@@ -17,7 +17,7 @@ THEOREMS = [P + n for n in ("C23_lift2", "C23_lift1", "C23_collapse", "C23_norma
 TESTS = [P + "test_lift_example"]
 
 PY_METHOD = {"add": "__add__", "sub": "__sub__", "and": "__and__", "or": "__or__", "xor": "__xor__", "mod": "__mod__",
-             "shl": "__lshift__", "ashr": "__rshift__", "concat": "concat", "udiv": "__floordiv__"}
+             "shl": "__lshift__", "ashr": "__rshift__", "concat": "concat", "udiv": "__floordiv__", "mul": "__mul__", "lshr": "LShR"}
 
 
 def key(t):
@@ -81,6 +81,8 @@ def ds_line(op, A, B, extra):
         real = vs.call(lambda p: getattr(p, op)(), a)
     elif op == "cardinality":
         real = vs.call(lambda p: p.cardinality, a)
+    elif op in ("min", "max", "smin", "smax"):
+        real = vs.ds_query_real(op, a, A)
     elif op == "eval":
         real = vs.call(lambda p: p.eval(extra[0]), a)
     elif op == "zext":
@@ -102,7 +104,7 @@ def canon_str(c):
     if c[0] == "bool":
         return "bool:" + c[1]
     if c[0] == "val":
-        return "int %s" % c[1] if isinstance(c[1], int) else str(c[1])
+        return "int %s" % c[1] if isinstance(c[1], int) and not isinstance(c[1], bool) else str(c[1])
     if c[0] == "err":
         return "err:" + c[1]
     return str(c)
@@ -132,7 +134,8 @@ def gen_cases(ctx):
     # every set of <= 2 intervals of width 2 (and of width 1: all non-empty subsets), unary-shaped operations
     pool1 = vsa.all_sis(1)
     sets1 = [("d", 1, list(c)) for k in (1, 2, 3) for c in itertools.combinations(pool1, k)]
-    un_ops = [("opneg", ()), ("not", ()), ("collapse", ()), ("normalize", ()), ("cardinality", ()), ("eval", (1,)), ("eval", (3,)), ("eval", (64,))]
+    un_ops = [("opneg", ()), ("not", ()), ("collapse", ()), ("normalize", ()), ("cardinality", ()), ("min", ()), ("max", ()), ("smin", ()), ("smax", ()),
+              ("hull", ()), ("bk", ()), ("eval", (1,)), ("eval", (3,)), ("eval", (64,))]
     for A in sets1 + sets2:
         w = A[1]
         for op, ex in un_ops + [("zext", (w + 1,)), ("zext", (w + 3,)), ("sext", (w + 1,)), ("sext", (w + 2,))]:
@@ -141,10 +144,11 @@ def gen_cases(ctx):
             for hi in range(lo, w):
                 cases.append(("d", "extract", A, None, (hi, lo)))
     bin_ops = list(vs.DS_BIN) + list(vs.DS_CMP) + list(vs.DS_SET) + ["concat"]
+    rbin_ops = list(vs.DS_RBIN)          # interval (op) set: only with an interval as the other operand
     # width 1: every pair of sets; width 2/3: sampled pairs (set x set, set x interval)
     for A in sets1:
         for B in sets1 + [("s", t) for t in pool1]:
-            for op in bin_ops:
+            for op in bin_ops + (rbin_ops if B[0] == "s" else []):
                 cases.append(("d", op, A, B, ()))
     sets3 = None
     for _ in range(ctx.pick(500, 12000)):
@@ -153,15 +157,18 @@ def gen_cases(ctx):
         else:
             k = rng.choice([1, 2, 3])
             A = ("d", 3, rng.sample(pool3, k)); B = rng.choice([("d", 3, rng.sample(pool3, rng.choice([1, 2]))), ("s", rng.choice(pool3))])
-        for op in bin_ops:
+        for op in bin_ops + (rbin_ops if B[0] == "s" else []):
             cases.append(("d", op, A, B, ()))
+        if A[1] == 3:
+            for op in ("min", "max", "smin", "smax", "hull", "bk"):
+                cases.append(("d", op, A, None, ()))
     for _ in range(ctx.pick(60, 1500)):          # wider members: collapse above 256 values
         w = rng.choice([8, 8, 9, 16, 32])
         A = ("d", w, [vsa.rand_si(rng, w) for _ in range(rng.choice([1, 2, 3, 4]))])
         B = rng.choice([("d", w, [vsa.rand_si(rng, w) for _ in range(rng.choice([1, 2]))]), ("s", vsa.rand_si(rng, w))])
         for op in bin_ops:
             cases.append(("d", op, A, B, ()))
-        for op, ex in un_ops[:5]:
+        for op, ex in un_ops[:11]:
             cases.append(("d", op, A, None, ex))
     # value sets: regions from a small pool
     REG = ["global", "stack", "heap"]
@@ -177,6 +184,11 @@ def gen_cases(ctx):
         for op in ("union", "intersection", "widen"):
             cases.append(("v", op, A, Bv, ()))
         cases.append(("v", "subvs", A, ("v", w, {r: pick() for r in A[2]}), ()))
+        # query - combine - query histories (a result must not remember what was read from its operands)
+        for op in ("union", "intersection", "widen"):
+            cases.append(("v", "hist_" + op, A, Bv, ()))
+        for op in ("sub", "mod", "and", "add", "union"):
+            cases.append(("v", "hist_" + op, A, Bs, ()))
         for op, ex in [("cardinality", ()), ("eval", (1,)), ("eval", (3,)), ("eval", (50,)), ("min", ()), ("max", ()),
                        ("extract", (w - 1, 0)), ("extract", (w - 2 if w > 1 else 0, 0)), ("extract", (w - 1, w - 1))]:
             cases.append(("v", op, A, None, ex))
@@ -197,7 +209,8 @@ def run(ctx):
     lines, idx, reals = [], [], []
     per_op = collections.defaultdict(lambda: {"modelled": 0, "unmodelled": 0, "cases": 0})
     for i, (cont, op, A, B, ex) in enumerate(cases):
-        if cont == "d" and op != "eval" and op not in ("union", "widen", "udiv") and not (op == "intersection" and B[0] == "d"):
+        if cont == "d" and op != "eval" and op not in ("union", "widen", "udiv", "hull", "bk") and op not in vs.DS_RBIN and \
+                not (op == "intersection" and B[0] == "d"):
             line, real = ds_line(op, A, B, ex)
             lines.append(line); idx.append(i)
         elif cont == "d":
